@@ -207,7 +207,7 @@ def run(s):
     # re-ordering q-points and modes commutes with the mode interpolation because every (q, m) slot is interpolated on its own, from its own column, into its own slot,
     # whatever the weights are: C11's dispatch obligation (mode_gamma.py, outside this property's anchored files), registered here as well
     from props import C11
-    C11.run(core.SubSession(s, lambda n: n.replace("C11.", "C13.mode_interpolation."), lambda n: n == "C11.dispatch_no_mixing"))
+    core.SubSession(s, lambda n: n.replace("C11.", "C13.mode_interpolation."), lambda n: n == "C11.dispatch_no_mixing").run(C11)
     # re-presentations act on the FILE: the reader (qha_input.py) must hand over modes in the listed order and weights as written, also in exponent notation (a common factor of 1e-6)
     from props import C17
     s.oblige("C13.reader.hands_over_as_written(hand-written files)", C17.reader_hands_over_as_written, ["qha_input.read_energy"], kind="finite")
